@@ -3,6 +3,7 @@ use crate::ctx::{Ctx, Outcome};
 use crate::gen;
 use crate::wire::*;
 use rand::Rng;
+use text_utils::text::{possible_byte_substrings, possible_character_substrings};
 use text_utils::unicode::CharString;
 use text_utils::windows::{windows, WindowConfig};
 
@@ -92,9 +93,163 @@ fn enc_observation(v: &mut Vec<u64>, kind: u64, max: usize, ctx: usize, var: u64
     }
 }
 
+/// the realised string of a request about `CharString` (mode chosen as for `windows`), checked against the lengths
+fn realise(lens: &[u64], var: u64, salt: usize) -> Result<(String, bool), String> {
+    let (s, needs_g) = string_of_lens(lens, var)?;
+    let g = needs_g.unwrap_or(lens.len().wrapping_add(salt) % 2 == 0);
+    let real: Vec<u64> = CharString::new(&s, g).get_char_byte_lengths().into_iter().map(|x| x as u64).collect();
+    if real != lens {
+        return Err("string does not realise the requested cluster lengths".into());
+    }
+    Ok((s, g))
+}
+
+/// byte range of a slice of `s` (`(0, 0)` for the empty slice, which need not point into `s`)
+fn range_in(s: &str, sub: &str) -> Option<(usize, usize)> {
+    if sub.is_empty() {
+        return Some((0, 0));
+    }
+    let off = (sub.as_ptr() as usize).checked_sub(s.as_ptr() as usize)?;
+    if off + sub.len() <= s.len() { Some((off, off + sub.len())) } else { None }
+}
+
+/// `cstr`: `CharString::{new, len, get_char_byte_lengths, sub, get}` — the run-length based index conversion
+fn exec_cstr(a: &[u64]) -> Result<Outcome, String> {
+    let mut r = Rd::new(a);
+    let var = r.nat()?;
+    let lens = r.nats()?;
+    let qs = r.list(|r| Ok((r.usize()?, r.usize()?)))?;
+    r.end()?;
+    let (s, g) = realise(&lens, var, 0)?;
+    let cs = CharString::new(&s, g);
+    let n = lens.len();
+    let mut pre = vec![0usize];
+    for l in &lens {
+        pre.push(pre.last().unwrap() + *l as usize);
+    }
+    let mut out: Vec<u64> = vec![cs.len() as u64];
+    enc_nats(&mut out, cs.get_char_byte_lengths().into_iter().map(|x| x as u64));
+    let mut o = Outcome::new(String::new());
+    o.check(cs.len() == n && cs.is_empty() == (n == 0), "len() is not the number of characters");
+    o.check(cs.chars().map(|c| c.str.to_string()).collect::<String>() == s, "chars() do not concatenate to the string");
+    o.check(CharString::split(&s, g).map(|x| x.len() as u64).collect::<Vec<_>>() == lens, "split() gives other characters than new()");
+    for &(st, en) in &qs {
+        match std::panic::catch_unwind(|| cs.sub(st, en)) {
+            Ok(sub) => match range_in(&s, sub) {
+                Some((b, e)) => {
+                    out.extend([1, b as u64, e as u64]);
+                    o.check(st <= en, "sub(start > end) did not fail");
+                    if st <= en {
+                        let (cs_, ce_) = (st.min(n), en.min(n));
+                        o.check(sub == &s[pre[cs_]..pre[ce_]], "sub(start, end) is not the slice between the two character boundaries");
+                    }
+                }
+                None => return Err("sub() returned a slice outside the string".into()),
+            },
+            Err(_) => {
+                out.push(0);
+                o.check(st > en, "sub(start <= end) panicked");
+            }
+        }
+        match std::panic::catch_unwind(|| cs.get(st)) {
+            Ok(Some(c)) => {
+                let Some((b, e)) = range_in(&s, c) else { return Err("get() returned a slice outside the string".into()) };
+                out.extend([1, b as u64, e as u64]);
+                o.check(st < n && (b, e) == (pre[st], pre[st + 1]), "get(n) is not the n-th character");
+            }
+            Ok(None) => {
+                out.push(0);
+                o.check(st >= n, "get(n) is None for a position inside the text");
+            }
+            Err(_) => {
+                out.push(2);
+                o.check(false, "get(n) panicked");
+            }
+        }
+    }
+    o.out = ok(out);
+    Ok(o)
+}
+
+/// `charsubs` / `bytesubs`: `possible_character_substrings` / `possible_byte_substrings` (same index arithmetic as
+/// the windows: triples of start byte, end byte, number of characters)
+fn exec_subs(op: &str, a: &[u64]) -> Result<Outcome, String> {
+    let mut r = Rd::new(a);
+    let var = r.nat()?;
+    let max = r.usize()?;
+    let lens = r.nats()?;
+    r.end()?;
+    let (s, g) = realise(&lens, var, max)?;
+    let n = lens.len();
+    let mut pre = vec![0usize];
+    for l in &lens {
+        pre.push(pre.last().unwrap() + *l as usize);
+    }
+    let bytes = op == "bytesubs";
+    let res = std::panic::catch_unwind(|| if bytes { possible_byte_substrings(&s, max, g) } else { possible_character_substrings(&s, max, g) });
+    let Ok(v) = res else {
+        // the only panic the code has on this path: `max_chars == 0` on a non-empty text trips the assertion of
+        // `char_range_to_byte_range` (no clause of the property speaks about this function's configuration errors;
+        // any OTHER panic is reported)
+        let mut o = Outcome::new(err("panic"));
+        o.check(!bytes && max == 0 && n > 0, "the substring enumeration panicked");
+        return Ok(o);
+    };
+    let mut out = vec![v.len() as u64];
+    for &(b, e, k) in &v {
+        out.extend([b as u64, e as u64, k as u64]);
+    }
+    let mut o = Outcome::new(ok(out));
+    if n == 0 {
+        o.check(v == vec![(0, 0, 0)], "the empty text has other substrings than the empty one");
+        return Ok(o);
+    }
+    // byte and character boundaries denote the same positions: every triple is a run of `k` whole characters
+    let mut last: Option<(usize, usize)> = None;
+    for &(b, e, k) in &v {
+        let st = pre.binary_search(&b);
+        let en = pre.binary_search(&e);
+        match (st, en) {
+            (Ok(st), Ok(en)) => {
+                o.check(st < en && en - st == k, "the character count of a substring is not the number of its characters");
+                if bytes {
+                    o.check(e - b <= max, "a byte substring exceeds the maximum");
+                    o.check(en == n || pre[en + 1] - b > max, "a byte substring could be extended by the next character");
+                } else {
+                    o.check(k == max.min(n), "a character substring does not have min(max, len) characters");
+                }
+                if let Some((ps, pe)) = last {
+                    o.check(ps < st && pe < en, "substrings are not enumerated in increasing order");
+                }
+                last = Some((st, en));
+            }
+            _ => o.check(false, "a substring boundary is not a character boundary"),
+        }
+    }
+    if bytes {
+        o.check(v.is_empty() == lens.iter().all(|&l| l as usize > max), "no substring although a character fits (or one although none fits)");
+        // complete up to inclusion: every fitting run of characters lies inside an enumerated one
+        if n <= 40 {
+            for st in 0..n {
+                for en in st + 1..=n {
+                    if pre[en] - pre[st] <= max {
+                        o.check(v.iter().any(|&(b, e, _)| b <= pre[st] && pre[en] <= e), "a fitting run of characters is inside no enumerated substring");
+                    }
+                }
+            }
+        }
+    } else {
+        o.check(v.len() == n - max.min(n) + 1, "not every start position has its substring");
+    }
+    Ok(o)
+}
+
 pub fn exec(op: &str, a: &[u64]) -> Result<Outcome, String> {
-    if op != "windows" {
-        return Err(format!("unknown op {op}"));
+    match op {
+        "cstr" => return exec_cstr(a),
+        "charsubs" | "bytesubs" => return exec_subs(op, a),
+        "windows" => {}
+        _ => return Err(format!("unknown op {op}")),
     }
     let mut r = Rd::new(a);
     let kind = r.nat()?;
@@ -184,6 +339,121 @@ pub fn exec(op: &str, a: &[u64]) -> Result<Outcome, String> {
     }
 }
 
+/// random cluster byte lengths: runs of equal lengths (what the run-length encoding compresses) as well as
+/// alternating ones
+fn rand_lens(ctx: &mut Ctx, maxlen: usize) -> Vec<u64> {
+    let len = ctx.rng.random_range(0..=maxlen);
+    let mut lens: Vec<u64> = vec![];
+    while lens.len() < len {
+        let r = ctx.rng.random_range(0..100);
+        let l = if r < 40 { 1 } else if r < 60 { 2 } else if r < 75 { 3 } else if r < 88 { 4 } else if r < 91 { 8 } else if r < 93 { 11 } else if r < 95 { 25 } else { ctx.rng.random_range(5..=9) };
+        let run = if ctx.rng.random_range(0..3) == 0 { ctx.rng.random_range(1..=6) } else { 1 };
+        for _ in 0..run {
+            if lens.len() < len {
+                lens.push(l);
+            }
+        }
+    }
+    lens
+}
+
+/// requests about `CharString` itself and the two substring enumerations
+fn run_cstr(ctx: &mut Ctx) {
+    let emit_cstr = |ctx: &mut Ctx, lens: &[u64], qs: &[(u64, u64)]| {
+        let var: u64 = if ctx.rng.random_range(0..3) == 0 { 0 } else { ctx.rng.random() };
+        let mut v = vec![var];
+        enc_nats(&mut v, lens.iter().copied());
+        v.push(qs.len() as u64);
+        for &(a, b) in qs {
+            v.extend([a, b]);
+        }
+        ctx.case("cstr", &v);
+    };
+    let emit_subs = |ctx: &mut Ctx, op: &str, max: u64, lens: &[u64]| {
+        let var: u64 = if ctx.rng.random_range(0..3) == 0 { 0 } else { ctx.rng.random() };
+        let mut v = vec![var, max];
+        enc_nats(&mut v, lens.iter().copied());
+        ctx.case(op, &v);
+    };
+    let all_queries = |n: u64| -> Vec<(u64, u64)> {
+        let mut q = vec![];
+        for a in 0..=n + 1 {
+            for b in 0..=n + 1 {
+                q.push((a, b));
+            }
+        }
+        q.push((0, u64::MAX));
+        q.push((u64::MAX, u64::MAX));
+        q
+    };
+    if ctx.first_shard() {
+        for lens in [vec![], vec![1], vec![3], vec![1, 1, 1, 2, 2, 1, 4, 4, 5], vec![2, 2, 2, 2], vec![1, 2, 1, 3], vec![4, 4], vec![1, 1, 8, 8, 1]] {
+            let q = all_queries(lens.len() as u64);
+            emit_cstr(ctx, &lens, &q);
+            for max in [0u64, 1, 2, 3, 4, 5, 7, 8, 9, 100, u64::MAX] {
+                emit_subs(ctx, "charsubs", max, &lens);
+                emit_subs(ctx, "bytesubs", max, &lens);
+            }
+        }
+    }
+    if ctx.thorough && ctx.first_shard() {
+        // exhaustive: every length vector of up to 6 clusters over {1,2,3,4}: every (start, end) query, every max
+        let mut frontier: Vec<Vec<u64>> = vec![vec![]];
+        for _ in 0..6 {
+            let mut next = vec![];
+            for v in &frontier {
+                for l in 1..=4u64 {
+                    let mut t = v.clone();
+                    t.push(l);
+                    next.push(t);
+                }
+            }
+            for lens in &next {
+                let q = all_queries(lens.len() as u64);
+                emit_cstr(ctx, lens, &q);
+                for max in 0..=(lens.iter().sum::<u64>() + 1).min(13) {
+                    emit_subs(ctx, "charsubs", max, lens);
+                    emit_subs(ctx, "bytesubs", max, lens);
+                }
+            }
+            frontier = next;
+        }
+    }
+    let n = ctx.budget(1500, 60000);
+    for i in 0..n {
+        let lens = rand_lens(ctx, if i % 100 == 7 { 1500 } else if i % 10 == 0 { 40 } else { 10 });
+        let len = lens.len() as u64;
+        match i % 3 {
+            0 => {
+                let nq = ctx.rng.random_range(1..=12);
+                let qs: Vec<(u64, u64)> = (0..nq)
+                    .map(|_| {
+                        let a = ctx.rng.random_range(0..=len + 2);
+                        let b = if ctx.rng.random_range(0..8) == 0 { ctx.rng.random_range(0..=len + 2) } else { ctx.rng.random_range(a..=len + 3) };
+                        (a, b)
+                    })
+                    .collect();
+                emit_cstr(ctx, &lens, &qs);
+            }
+            1 => {
+                let max = if ctx.rng.random_range(0..12) == 0 { 0 } else { ctx.rng.random_range(1..=len + 2) };
+                emit_subs(ctx, "charsubs", max, &lens);
+            }
+            _ => {
+                let total: u64 = lens.iter().sum();
+                let max = match ctx.rng.random_range(0..10) {
+                    0 => 0,
+                    1 => total,
+                    2 => total + 1,
+                    3..=5 => ctx.rng.random_range(1..=12),
+                    _ => ctx.rng.random_range(0..=total.max(1)),
+                };
+                emit_subs(ctx, "bytesubs", max, &lens);
+            }
+        }
+    }
+}
+
 pub fn run_c16(ctx: &mut Ctx) {
     let mut emit = |ctx: &mut Ctx, kind: u64, max: u64, c: u64, lens: &[u64]| {
         // realisation of the clusters: the plain one for a third of the requests, a random one otherwise
@@ -239,6 +509,7 @@ pub fn run_c16(ctx: &mut Ctx) {
             emit(ctx, 2, 0, 0, lens);
         }
     }
+    run_cstr(ctx);
     let n = ctx.budget(6000, 300000);
     for i in 0..n {
         let len = ctx.rng.random_range(0..=if i % 300 == 5 { 1200 } else if i % 10 == 0 { 30 } else { 9 });
